@@ -3,7 +3,7 @@ from shexer.model.shape import STARTING_CHAR_FOR_SHAPE_NAME
 from rdflib import Graph, Namespace, URIRef, RDF, BNode, XSD, Literal
 from shexer.model.statement import POSITIVE_CLOSURE, KLEENE_CLOSURE, OPT_CARDINALITY
 from shexer.utils.uri import XSD_NAMESPACE, LANG_STRING_TYPE
-from shexer.model.const_elem_types import IRI_ELEM_TYPE, LITERAL_ELEM_TYPE, DOT_ELEM_TYPE, BNODE_ELEM_TYPE
+from shexer.model.const_elem_types import IRI_ELEM_TYPE, LITERAL_ELEM_TYPE, DOT_ELEM_TYPE, BNODE_ELEM_TYPE, NONLITERAL_ELEM_TYPE
 from shexer.io.wikidata import wikidata_annotation
 from wlighter import TURTLE_FORMAT
 
@@ -36,6 +36,7 @@ _R_SHACL_PATTERN_PROP = URIRef(_SHACL_NAMESPACE + "pattern")
 _R_SHACL_NODEKIND_IRI = URIRef(_SHACL_NAMESPACE + "IRI")
 _R_SHACL_NODEKIND_LITERAL = URIRef(_SHACL_NAMESPACE + "Literal")
 _R_SHACL_NODEKIND_BNODE = URIRef(_SHACL_NAMESPACE + "BlankNode")
+_R_SHACL_NODEKIND_NONLITERAL = URIRef(_SHACL_NAMESPACE + "BlankNodeOrIRI")
 _R_SHACL_NODEKIND_DOT = None
 
 _R_LANG_STRING = URIRef("http://www.w3.org/2000/01/rdf-schema#langString")
@@ -45,8 +46,9 @@ _STRING = "s"
 
 _MACRO_MAPPING = {IRI_ELEM_TYPE: _R_SHACL_NODEKIND_IRI,
                   LITERAL_ELEM_TYPE: _R_SHACL_NODEKIND_LITERAL,
-                  DOT_ELEM_TYPE: _R_SHACL_NODEKIND_BNODE,
-                  BNODE_ELEM_TYPE: _R_SHACL_NODEKIND_DOT}
+                  DOT_ELEM_TYPE: _R_SHACL_NODEKIND_DOT,
+                  BNODE_ELEM_TYPE: _R_SHACL_NODEKIND_BNODE,
+                  NONLITERAL_ELEM_TYPE: _R_SHACL_NODEKIND_NONLITERAL}
 
 
 class ShaclSerializer(object):
